@@ -284,4 +284,152 @@ Section AtR.
     intros Ep Pv. unfold fit_trace. rewrite Ep. cbn [bind]. destruct (isdir && c_latlon c); [discriminate|].
     intros H. eapply curve_restores_variance; eauto.
   Qed.
+
+  (* ---------- r2: at most 1, and exactly 1 iff the fitted curve passes through every data point *)
+  Lemma sum_l_acc (l : list R) : forall a, fold_left Rplus l a = a + fold_left Rplus l 0.
+  Proof.
+    induction l as [|x l IH]; intros a; simpl; [lra|]. rewrite (IH (a + x)), (IH (0 + x)). lra.
+  Qed.
+  Lemma sum_l_cons x (l : list R) : sum_l O (x :: l) = x + sum_l O l.
+  Proof. unfold sum_l; simpl. rewrite sum_l_acc. lra. Qed.
+  Lemma sum_l_nonneg (l : list R) : Forall (fun x => 0 <= x) l -> 0 <= sum_l O l.
+  Proof.
+    induction 1 as [|x l Hx _ IH]; [unfold sum_l; simpl; lra|]. rewrite sum_l_cons. lra.
+  Qed.
+  Lemma sum_l_zero (l : list R) : Forall (fun x => 0 <= x) l -> sum_l O l = 0 -> Forall (fun x => x = 0) l.
+  Proof.
+    induction 1 as [|x l Hx Hl IH]; intros H; [constructor|]. rewrite sum_l_cons in H.
+    pose proof (sum_l_nonneg l Hl). constructor; [lra|apply IH; lra].
+  Qed.
+  Lemma res_nonneg (ys vs : list R) :
+    Forall (fun x => 0 <= x) (map (fun p => sqr O (nsub O (fst p) (snd p))) (combine ys vs)).
+  Proof. apply Forall_forall. intros x Hx. apply in_map_iff in Hx. destruct Hx as [[a b] [<- _]]. unfold sqr; simpl. pose proof (Rle_0_sqr (a - b)) as Hs. unfold Rsqr in Hs. exact Hs. Qed.
+
+  Lemma ss_res_self (ys : list R) : ss_res O ys ys = 0.
+  Proof.
+    induction ys as [|y ys IH]; [reflexivity|]. unfold ss_res in *. cbn [combine map]. rewrite sum_l_cons, IH.
+    unfold sqr; simpl. ring.
+  Qed.
+  Theorem r2_le_1 (ys vs : list R) : 0 < ss_tot O ys -> r2_score O ys vs <= 1.
+  Proof.
+    intros Ht. unfold r2_score; simpl. pose proof (sum_l_nonneg _ (res_nonneg ys vs)) as Hr. fold (ss_res O ys vs) in Hr.
+    assert (0 <= ss_res O ys vs / ss_tot O ys) by (apply Rmult_le_pos; [lra|left; apply Rinv_0_lt_compat; lra]). lra.
+  Qed.
+  Theorem r2_eq_1_iff (ys vs : list R) : length ys = length vs -> 0 < ss_tot O ys ->
+    (r2_score O ys vs = 1 <-> ys = vs).
+  Proof.
+    intros Hl Ht. unfold r2_score; simpl. split.
+    - intros H. assert (Hz : ss_res O ys vs = 0).
+      { assert (ss_res O ys vs / ss_tot O ys = 0) by lra. unfold Rdiv in H0. apply Rmult_integral in H0.
+        destruct H0; auto. exfalso. assert (0 < / ss_tot O ys) by (apply Rinv_0_lt_compat; lra). lra. }
+      apply sum_l_zero in Hz; [|apply res_nonneg]. clear H Ht. revert vs Hl Hz.
+      induction ys as [|y ys IH]; intros [|v vs] Hl Hz; simpl in *; try discriminate; auto.
+      inversion Hz as [|? ? H1 H2]; subst. f_equal; [|apply IH; auto].
+      unfold sqr in H1; simpl in H1. nra.
+    - intros <-. rewrite ss_res_self. unfold Rdiv. lra.
+  Qed.
+  (* ---------- the decision table of the sill bookkeeping: which of var / nugget gives way *)
+  Definition sill_body c (nfv nfn : bool) (s : MS) (sv0 : R) : Res (MS * bool * bool * option R) :=
+    if sill_in_range O c sv0
+    then if nfv && nfn
+         then if nltb O sv0 (get_var O s)
+              then match b_lo (c_bnug c) with
+                   | Some l => s1 <- set_nug O c s l;; s2 <- set_var O c s1 (nsub O sv0 (m_nug s1));; Ok (s2, true, true, Some sv0)
+                   | None => Err E_OTHER
+                   end
+              else (s1 <- set_nug O c s (nsub O sv0 (get_var O s));; Ok (s1, true, true, Some sv0))
+         else if nfv
+              then if nltb O sv0 (get_var O s) then Err E_VARSILL
+                   else (s1 <- set_nug O c s (nsub O sv0 (get_var O s));; Ok (s1, true, true, Some sv0))
+              else if nfn
+                   then if nltb O sv0 (m_nug s) then Err E_NUGSILL
+                        else (s1 <- set_var O c s (nsub O sv0 (m_nug s));; Ok (s1, true, true, Some sv0))
+                   else Ok (s, false, true, Some sv0)
+    else Err E_SILL.
+  Lemma sill_book_body c sill nfv nfn (s : MS) :
+    sill_book O c sill nfv nfn s =
+    match sill with
+    | SillNone => Ok (s, nfv, nfn, None)
+    | SillCurrent => sill_body c nfv nfn s (get_var O s + m_nug s)
+    | SillVal v => sill_body c nfv nfn s v
+    end.
+  Proof. destruct sill; reflexivity. Qed.
+
+  Lemma sill_body_table c nfv nfn (s s' : MS) a b so sv :
+    sill_body c nfv nfn s sv = Ok (s', a, b, so) ->
+    so = Some sv /\ b = true
+    /\ (nfv = true -> nfn = true -> sv < get_var O s ->
+         a = true /\ exists l, b_lo (c_bnug c) = Some l /\ m_nug s' = l /\ get_var O s' = sv - l)
+    /\ (nfv = true -> (nfn = true -> ~ sv < get_var O s) ->
+         a = true /\ get_var O s' = get_var O s /\ m_nug s' = sv - get_var O s)
+    /\ (nfv = false -> nfn = true -> a = true /\ m_nug s' = m_nug s /\ get_var O s' = sv - m_nug s)
+    /\ (nfv = false -> nfn = false -> a = false /\ s' = s).
+  Proof.
+    unfold sill_body. intros H. destruct (sill_in_range O c sv); [|discriminate].
+    destruct nfv, nfn; cbn [andb] in H.
+    - change (nltb O sv (get_var O s)) with (Rltb sv (get_var O s)) in H.
+      destruct (Rltb sv (get_var O s)) eqn:Eb; [apply Rltb_true in Eb | apply Rltb_false in Eb].
+      + destruct (b_lo (c_bnug c)) as [l|] eqn:El; [|discriminate].
+        bk H s1 Q1. bk H s2 Q2. apply set_nug_ok in Q1. apply set_var_ok in Q2.
+        destruct Q1 as [-> _], Q2 as [-> _]. inversion H; subst.
+        split; auto. split; auto. split; [|split; [|split]]; try (intros; discriminate).
+        * intros _ _ _. split; auto. exists l. split; auto. split; [reflexivity|]. rewrite get_upd_var. reflexivity.
+        * intros _ Hn. exfalso. apply Hn; auto.
+      + bk H s1 Q1. apply set_nug_ok in Q1. destruct Q1 as [-> _]. inversion H; subst.
+        split; auto. split; auto. split; [|split; [|split]]; try (intros; discriminate).
+        * intros _ _ Hlt. lra.
+        * intros _ _. split; auto.
+    - change (nltb O sv (get_var O s)) with (Rltb sv (get_var O s)) in H.
+      destruct (Rltb sv (get_var O s)); [discriminate|].
+      bk H s1 Q1. apply set_nug_ok in Q1. destruct Q1 as [-> _]. inversion H; subst.
+      split; auto. split; auto. split; [|split; [|split]]; try (intros; discriminate).
+      intros _ _. split; auto.
+    - destruct (nltb O sv (m_nug s)); [discriminate|].
+      bk H s1 Q1. apply set_var_ok in Q1. destruct Q1 as [-> _]. inversion H; subst.
+      split; auto. split; auto. split; [|split; [|split]]; try (intros; discriminate).
+      intros _ _. split; auto. split; [reflexivity|]. rewrite get_upd_var. reflexivity.
+    - inversion H; subst. split; auto. split; auto. split; [|split; [|split]]; try (intros; discriminate). auto.
+  Qed.
+
+  (* lifted to the whole call with a prescribed sill value: [t2] is the model right after the fixed values were applied *)
+  Theorem sill_decision_table c nopt sel anis isdir evs popt (s0 s' t1 t2 : MS) d v :
+    length (m_opt s0) = nopt ->
+    apply_fixed O c nopt sel s0 = Ok t1 ->
+    oset (set_var O c) (var_target O true sel s0) t1 = Ok t2 ->
+    fit_run O true c nopt sel (SillVal v) anis isdir evs popt s0 = Ok (s', d) ->
+    (nf_in sel 0 = true -> nf_in sel 2 = true -> v < get_var O t2 ->
+       exists l, b_lo (c_bnug c) = Some l /\ m_nug s' = l /\ get_var O s' = v - l)
+    /\ (nf_in sel 0 = true -> (nf_in sel 2 = true -> ~ v < get_var O t2) ->
+       get_var O s' = get_var O t2 /\ m_nug s' = v - get_var O t2)
+    /\ (nf_in sel 0 = false -> nf_in sel 2 = true -> m_nug s' = m_nug t2 /\ get_var O s' = v - m_nug t2).
+  Proof.
+    intros Hn Pa Pb H. pose proof H as H0. rewrite fit_run_split in H0.
+    destruct (pre_para O true c nopt sel (SillVal v) anis s0) as [[[[s1 para] so] af]|] eqn:Ep; [|discriminate].
+    cbn [bind fst snd] in H0.
+    destruct (pre_para_frame _ _ _ _ _ _ _ _ _ _ _ _ Ep Hn) as [Hl _].
+    apply after_pre_ok in H0; auto. destruct H0 as [Hs' _].
+    (* open _pre_para *)
+    pose proof Ep as Ep'. unfold pre_para in Ep'. rewrite Pa in Ep'. cbn [bind] in Ep'. rewrite Pb in Ep'. cbn [bind] in Ep'.
+    bk Ep' r Pc. destruct r as [[[t3 nfv'] nfn'] so'].
+    rewrite sill_book_body in Pc. apply sill_body_table in Pc. destruct Pc as [-> [-> [T1 [T2 [T3 T4]]]]].
+    assert (S1 : get_var O s1 = get_var O t3 /\ m_nug s1 = m_nug t3 /\ para = mkPara (negb nfv') (negb (nf_in sel 1)) false
+                   (map (fun i => negb (nf_in sel (3 + i))) (seq 0 nopt)) /\ so = Some v).
+    { destruct anis as [| |a0].
+      - inversion Ep'; subst; auto.
+      - inversion Ep'; subst; auto.
+      - bk Ep' t4 Pd. apply set_anis_ok in Pd. destruct Pd as [-> _]. inversion Ep'; subst. unfold upd_anis_n.
+        rewrite get_var_upd_anis. auto. }
+    destruct S1 as [V1 [N1 [-> ->]]].
+    assert (F : nfv' = true -> get_var O s' = get_var O t3 /\ m_nug s' = m_nug t3).
+    { intros ->. rewrite Hs'.
+      match goal with |- context [final_pure O c ?p0 _ _ _ _ _] => set (pp := p0) end.
+      assert (Pv : p_var pp = false) by reflexivity. assert (Pn : p_nug pp = false) by reflexivity.
+      rewrite get_var_final. unfold final_pure. cbn [m_nug].
+      rewrite ?(v_var_none O c pp (af && isdir) popt Pv). cbn [odflt]. rewrite (v_nug_none O c pp (af && isdir) popt Pn). cbn [odflt]. split; congruence. }
+    split; [|split].
+    - intros A B Hlt. destruct (T1 A B Hlt) as [-> [l [L1 [L2 L3]]]]. destruct (F eq_refl) as [F1 F2].
+      exists l. split; auto. split; congruence.
+    - intros A B. destruct (T2 A B) as [-> [L2 L3]]. destruct (F eq_refl) as [F1 F2]. split; congruence.
+    - intros A B. destruct (T3 A B) as [-> [L2 L3]]. destruct (F eq_refl) as [F1 F2]. split; congruence.
+  Qed.
 End AtR.
